@@ -135,6 +135,24 @@ def collectOp (sch : Schema) (rows : List (List α)) (cols : List ColRef) (limit
       | some m => .val (.table m)
       | none => .err "IndexError"
 
+/-- What the loop of `DataFrame.collect` (`column_indicies[i] = self.column_names.index(c)` for every `c` that is not
+an `int`) leaves in the list it writes into: positions where names were, up to the first name the frame does not
+have (there `index` raises and the rest is as it was). -/
+def resolveInPlace (names : List String) : List ColRef → List ColRef
+  | [] => []
+  | .idx i :: xs => .idx i :: resolveInPlace names xs
+  | .name s :: xs =>
+    match indexOf names s with
+    | some i => .idx (i : Int) :: resolveInPlace names xs
+    | none => .name s :: xs
+
+/-- The list object the caller passed to `collect` / `[]`, after the call: the generated table
+`Gen.Frame.writesCallerArgument "collect" kind` says whether the method's argument handling (the `isinstance` branches,
+`columns = [columns]` / `columns = list(columns)`, the alias `column_indicies = columns`) lets the loop write into
+the caller's own object (`kind`: 0 bare, 1 list, 2 set, 3 tuple). -/
+def collectArgAfter (kind : Nat) (names : List String) (arg : List ColRef) : List ColRef :=
+  if Gen.Frame.writesCallerArgument "collect" kind then resolveInPlace names arg else arg
+
 /-- `row(i)`: Python list indexing. -/
 def rowOp (rows : List (List α)) (i : Int) : SReg α :=
   let n : Int := rows.length
